@@ -1,4 +1,4 @@
 SPECIFICATION Spec
-INVARIANTS TypeOK OneWinner PayloadIsWinners NoEarlyWake AtMostOnce SeesCompleteResult WokenOnlyWhenFlagged ChainWellFormed AllReleasedAtEnd NoStuckState
+INVARIANTS TypeOK OneWinner PayloadIsWinners ArgConsumedOnlyByWinner PayloadBuiltOnce DropMeansNoValue NoEarlyWake AtMostOnce SeesCompleteResult WokenOnlyWhenFlagged ChainWellFormed AllReleasedAtEnd NoStuckState
 PROPERTIES LosersLeaveNoTrace ResultStable NoHang
 CHECK_DEADLOCK FALSE
